@@ -1356,8 +1356,22 @@ func (f *Frugal) validateValue(typ *Type, value interface{}) error {
 				return err
 			}
 		}
+	case t.Name == "bool":
+		_, isBool := value.(bool)
+		_, isInt := value.(int64)
+		if !isBool && !isInt {
+			return mismatch("true, false or a number")
+		}
+	case t.Name == "double":
+		_, isFloat := value.(float64)
+		_, isInt := value.(int64)
+		if !isFloat && !isInt {
+			return mismatch("a number")
+		}
 	case t.IsPrimitive():
-		// Numbers and booleans are converted by the generators.
+		if _, ok := value.(int64); !ok {
+			return mismatch("an integer")
+		}
 	case f.IsEnum(t):
 		if _, ok := value.(int64); !ok {
 			return mismatch("a number or the name of one of its values")
